@@ -144,7 +144,10 @@ def build_config(optimizer, cfg_spec):
     except ValidationError:
         for k in list(kw):
             if k not in registry.BASE_FIELDS:
-                kw[k] = reg["params"][k]
+                if k in reg["params"]:
+                    kw[k] = reg["params"][k]
+                else:
+                    del kw[k]            # optional field of the config model: back to its default
         return reg["cfg_cls"](**kw), True
 
 
